@@ -1026,7 +1026,7 @@ class AdbDeviceAsync(object):
 
         """
         if progress_callback:
-            total_bytes = (await self.stat(device_path))[1]
+            total_bytes = (await self.stat(device_path, adb_info.transport_timeout_s, adb_info.read_timeout_s))[1]
 
         await self._filesync_send(constants.RECV, adb_info, filesync_info, data=device_path)
         async for cmd_id, _, data in self._filesync_read_until([constants.DATA], [constants.DONE], adb_info, filesync_info):
